@@ -254,7 +254,7 @@ pub fn run_c10<C: NatCtx>(v: &mut Env<C>) {
     // ---- large committees (n up to 16, t up to 13): every share against an independent Horner evaluation
     // over the integers mod q, reconstruction from the HIGHEST positions and from a random subset
     // (beyond 20 present trustees the products of positions no longer fit a machine word)
-    for (nn, t) in if quick { vec![(12usize, 10usize), (16, 13), (24, 22), (40, 33), (70, 70)] } else { vec![(11, 11), (12, 10), (12, 12), (13, 11), (16, 13), (16, 9), (21, 21), (24, 22), (33, 33), (40, 33), (70, 70), (130, 129), (300, 260)] } {
+    for (nn, t) in if quick { vec![(12usize, 10usize), (16, 13), (24, 22), (40, 33), (70, 70), (130, 129), (300, 20)] } else { vec![(11, 11), (12, 10), (12, 12), (13, 11), (16, 13), (16, 9), (21, 21), (24, 22), (33, 33), (40, 33), (65, 64), (70, 70), (130, 129), (257, 256), (300, 260), (1030, 1025), (70001, 5)] } {
         if big(nn as u64) >= q {
             continue;
         }
